@@ -139,6 +139,35 @@ def run(ctx):
                             last = field_chain(d[3])[1][0]
         ctx.check(ok, "recurrence", tag, mw.loc(), "momentum := m*(1-decay) + decay*(mid_price - last_price) (0 on the first step)",
                   "momentum recurrence is %s" % render(G))
+        # the recurrence is applied on EVERY step that has a previous price: the block that computes it is reached under no
+        # condition but `last price is Some` (a fast path such as `Some(p) if p != mid_price` resets M to 0 on a flat step)
+        from analysis.origin import strip as _strip
+        rec_sites = []
+        for blk_ in q.body.blocks:
+            if blk_.cleanup or blk_.i not in q.cfg.reach_from(0):
+                continue
+            for i_, st_ in enumerate(blk_.stmts):
+                if st_.k != "assign":
+                    continue
+                try:
+                    rv_ = _strip(q.ev.rvalue(st_.rv, (blk_.i, i_)))
+                except Exception:
+                    continue
+                if same(rv_, G) or (rv_[0] == "agg" and rv_[1] == "tuple" and any(same(x, G) for x in rv_[3])):
+                    rec_sites.append((blk_.i, st_))
+        okr = bool(rec_sites)
+        extra_g = []
+        for (b_, st_) in rec_sites:
+            for a in q.cfg.guards(b_):
+                if a[0] == "variant" and a[2] == ("Some",) and last is not None and fld(a[1], last):
+                    continue
+                if loop_exit(a):
+                    continue
+                extra_g.append(a)
+        from analysis.cfg import render_atom as _ra
+        ctx.check(okr and not extra_g, "recurrence", tag + "|always-applied", q.loc(rec_sites[0][1].sp) if rec_sites else ctx.loc(f),
+                  "the recurrence is computed on every step that has a previous price (only condition: last price is Some)",
+                  "the recurrence is skipped unless [%s]: on the other steps the momentum is reset instead of decayed" % " && ".join(_ra(a)[:80] for a in extra_g) if extra_g else "recurrence site not found")
         lw = [w for w in fw if last is not None and w.names[0] == last]
         okl = len(lw) == 1 and lw[0].val[0] == "agg" and lw[0].val[2].endswith("Option::Some") and mid is not None and lw[0].val[3][0] == mid and not [a for a in lw[0].guards if not loop_exit(a)]
         ctx.check(okl, "recurrence", tag + "|last-price", lw[0].loc() if lw else ctx.loc(f), "last price := Some(observed mid-price), every step",
